@@ -313,7 +313,8 @@ impl<'a> Sim<'a> {
         match model {
             Verdict::Undecided(w) => {
                 self.bump("auth.undecided");
-                let _ = w;
+                let slug: String = w.chars().map(|c| if c.is_ascii_alphanumeric() { c } else { '-' }).take(48).collect();
+                self.bump(&format!("undecided.auth.{slug}"));
             }
             Verdict::Allow => {
                 self.bump(&format!("auth.cell.v{v}.{cell}.allow"));
@@ -582,7 +583,11 @@ impl<'a> Sim<'a> {
                 }
                 self.bump("resolve.compared-with-rsr2");
             }
-            Resolved::Undecided(_) => self.bump("resolve.undecided"),
+            Resolved::Undecided(w) => {
+                self.bump("resolve.undecided");
+                let slug: String = w.chars().map(|c| if c.is_ascii_alphanumeric() { c } else { '-' }).take(48).collect();
+                self.bump(&format!("undecided.resolve.{slug}"));
+            }
         }
         // I-auth inside resolution: every iterative-auth step of the model, re-judged by the real auth_check
         for (id, st, verdict) in steps.iter().take(12) {
